@@ -7,7 +7,8 @@ import subprocess
 
 V = os.path.dirname(os.path.dirname(os.path.abspath(__file__)))
 
-TB = ("Trusted: Coq 8.16.1 kernel + vm_compute (no native_compute, no extraction); no axioms declared "
+TB = ("The model's control flow is also regenerated from the current source by fail-closed ast translators and proved EQUAL to the "
+      "hand-written model (translate/tcode_*.py, *GenProofs.v), so a source edit breaks a proof obligation. Trusted: Coq 8.16.1 kernel + vm_compute (no native_compute, no extraction); no axioms declared "
       "(Print Assumptions of every property theorem parsed on every run; audit for Admitted/Axiom/Parameter/...); "
       "the fail-closed Python-ast translators under translate/ and the correspondence harness under harness/; "
       "CPython/re/jsonschema/yaml/dill/filelock/OS are exercised, not modelled. The theorems are about executable Gallina models; "
